@@ -6,15 +6,27 @@ import suds.store
 import suds.transport
 
 
+STORM_LIMIT = 40
+
+
+class FetchStorm(Exception):
+    """One document was requested far more often than any load needs: the load is cut short (a loader that
+    re-fetches along every path takes time exponential in the depth of the document graph)."""
+
+
 class RecordingStore(suds.store.DocumentStore):
     def __init__(self, docs):
         suds.store.DocumentStore.__init__(self)
         self.update(docs)
         self.asked = []      # every URL the reader asked the store for
         self.served = []     # those it had
+        self.storm = None
 
     def open(self, url):
         self.asked.append(url)
+        if self.asked.count(url) > STORM_LIMIT:
+            self.storm = url
+            raise FetchStorm("%s requested %d times" % (url, self.asked.count(url)))
         content = suds.store.DocumentStore.open(self, url)
         if content is not None:
             self.served.append(url)
@@ -38,6 +50,8 @@ class GraphTransport(suds.transport.Transport):
 
     def open(self, request):
         self.opened.append(request.url)
+        if self.opened.count(request.url) > STORM_LIMIT:
+            raise FetchStorm("%s requested %d times" % (request.url, self.opened.count(request.url)))
         if self.fault_at is not None and len(self.opened) == self.fault_at:
             self.faulted = request.url
             if self.fault_kind == "transport-error":
